@@ -10,7 +10,8 @@
 (*   Trigger = u1(u2(..(leaf)))  with 1..ChainMax <= 5 unary operators     *)
 (*   Context = the hole; hole b l; l b hole; (g b hole) c l;               *)
 (*             (hole b g) c l; l c (g b hole); l c (hole b g);             *)
-(*             u(hole b l); u(l b hole)                                    *)
+(*             u(hole b l); u(l b hole); and (kind 10) the chain applied   *)
+(*             to (g b l) instead of a leaf                                *)
 (* with b, c binary, u unary, g, l leaves.  Trees have at most             *)
 (* ChainMax + 5 nodes.  Parameters are numbered in order of appearance,    *)
 (* as generate_equations numbers them.  One state per (trigger, context).                *)
@@ -24,7 +25,7 @@ CONSTANTS B1, B2,      \* sequences of the unary / binary operator names of the 
 Un  == {B1[i] : i \in 1..Len(B1)}
 Bin == {B2[i] : i \in 1..Len(B2)}
 Leaves == {"x", "a"}
-Kinds == 1..9
+Kinds == 1..10
 
 (* one state per (trigger, context); the variables a context does not use are pinned to a default *)
 VARIABLES len, u1, u2, u3, u4, u5, leaf,     \* the trigger: len unary operators (outermost first) over leaf
@@ -35,9 +36,9 @@ D2 == B2[1]
 Pin(cond, S, d) == IF cond THEN S ELSE {d}
 Init == /\ kind \in KindSet
         /\ b \in Pin(kind # 1, Bin, D2) /\ l \in Pin(kind # 1, Leaves, "x")
-        /\ c \in Pin(kind \in {4, 5, 6, 7}, Bin, D2) /\ g \in Pin(kind \in {4, 5, 6, 7}, Leaves, "x")
+        /\ c \in Pin(kind \in {4, 5, 6, 7}, Bin, D2) /\ g \in Pin(kind \in {4, 5, 6, 7, 10}, Leaves, "x")
         /\ u \in Pin(kind \in {8, 9}, Un, D1)
-        /\ len \in 1..ChainMax /\ u1 \in Un /\ leaf \in Leaves
+        /\ len \in 1..ChainMax /\ u1 \in Un /\ leaf \in Pin(kind # 10, Leaves, "x")
         /\ u2 \in Pin(len >= 2, Un, D1) /\ u3 \in Pin(len >= 3, Un, D1) /\ u4 \in Pin(len >= 4, Un, D1) /\ u5 \in Pin(len >= 5, Un, D1)
 Next == UNCHANGED vars
 Spec == Init /\ [][Next]_vars
@@ -52,6 +53,7 @@ tree == CASE kind = 1 -> T
           [] kind = 7 -> <<c, l, b>> \o T \o <<g>>            \* l c (T b g)
           [] kind = 8 -> <<u, b>> \o T \o <<l>>               \* u(T b l)
           [] kind = 9 -> <<u, b, l>> \o T                      \* u(l b T)
+          [] kind = 10 -> SubSeq(<<u1, u2, u3, u4, u5>>, 1, len) \o <<b, g, l>>    \* the chain over (g b l): sub-trees sympy evaluates (x - x, x / x)
 
 ArityOf(x) == IF x \in Bin THEN 2 ELSE IF x \in Un THEN 1 ELSE 0
 NumberParams(t) == [k \in 1..Len(t) |-> IF t[k] = "a" THEN "a" \o ToString(Cardinality({q \in 1..(k - 1) : t[q] = "a"})) ELSE t[k]]
